@@ -11,6 +11,7 @@ mod infra;
 mod mutex;
 mod oneshot;
 mod semaphore;
+mod state;
 mod timer;
 
 use engine::{Runner, Sut};
@@ -51,6 +52,11 @@ fn make_sut(prim: &str, flavour: &str, consts: &Value) -> Option<Box<dyn Sut>> {
         ("timer", "pl-local") => Box::new(timer::TimerSut::<timer::ViaLocal<Pl>>::new(consts)),
         ("timer", "vlock") => Box::new(timer::TimerSut::<timer::ViaSync<VLock>>::new(consts)),
         ("mpmc", fl) => return make_mpmc(fl, consts),
+        ("state", "local") => Box::new(state::StateSut::<state::BorrowedState<Noop>>::new(consts)),
+        ("state", "pl") => Box::new(state::StateSut::<state::BorrowedState<Pl>>::new(consts)),
+        ("state", "vlock") => Box::new(state::StateSut::<state::BorrowedState<VLock>>::new(consts)),
+        ("state", "shared") => Box::new(state::StateSut::<state::SharedState<Pl>>::new(consts)),
+        ("state", "shared-vlock") => Box::new(state::StateSut::<state::SharedState<VLock>>::new(consts)),
         ("oneshot", "local") => Box::new(oneshot::OneSut::<oneshot::BorrowedOne<Noop>>::new(consts)),
         ("oneshot", "pl") => Box::new(oneshot::OneSut::<oneshot::BorrowedOne<Pl>>::new(consts)),
         ("oneshot", "vlock") => Box::new(oneshot::OneSut::<oneshot::BorrowedOne<VLock>>::new(consts)),
